@@ -21,6 +21,7 @@ ASSUMPTIONS = [
     "programs are in mm / absolute positioning; moves are linear; regions have off-grid borders (the episode oracle is C01's)",
     "merge-mode instances carry letter/number words only (valueless flags in a merged command: see KF-C06-MERGE-FLAG if listed)",
     "script lines are distinct marker commands so that their emissions can be counted",
+    "what follows the exit script at an episode end is judged by the C03 position relation (the printer stands where the program says after the end); script lines are marker commands that move nothing",
 ]
 
 POOL = ["M204", "M205", "M73", "M117", "G4", "M106", "M900", "M104", "M220"]
@@ -226,6 +227,9 @@ def run_case(case, strict=False):  # pylint: disable=unused-argument
     tr = core.run(case, filter_factory=plugin_harness.PluginFilter)
     cfg = case["config"]
     out, cl, nontrivial = check_trace(tr, cfg.get("ext") or {}, case["meta"]["enter"], case["meta"]["exit"])
+    # whatever follows the exit script is the re-synchronisation of this very episode end (nothing of an earlier one):
+    # the printer stands where the program says (the C03 relation)
+    out += [dict(f, tag="c06_after_exit_script") for f in asserts.c03(tr) if f["tag"] == "c03_position"]
     for k, v in (cfg.get("ext") or {}).items():
         cl.add("mode_" + v)
     if cfg.get("enter_script"):
